@@ -30,6 +30,9 @@ def run : Handler := fun req => do
   let pos := sOf inp "position"
   let derivesIdent := (fieldD inp "derives_ident" (Json.bool false)) == Json.bool true
   let carrier := sOf inp "carrier"      -- "doc" | "lit" | "either"
+  -- an annotation of one of two same-shaped INLINE object schemas: the schema-identity key contains the annotations
+  -- (finding F19-3), so the edit splits the shared struct in two
+  let inlineTwin := sOf inp "twin" == "inline"
   if (impl.getObjVal? "both_failed").toOption.isSome then
     return Json.mkObj [("model", Json.null), ("match", true), ("judge", verdict true [] "both the inert and the payload spec are rejected"), ("branch", "both-failed")]
   if (impl.getObjVal? "panic").toOption.isSome || (impl.getObjVal? "payload_failed").toOption.isSome then
@@ -49,7 +52,7 @@ def run : Handler := fun req => do
           return verdict false [] s!"payload at {pos} changes the SHAPE of {sOf f "file"} (items/members/attributes), not only names and literals: {(fieldD f "shape_diff" Json.null).compress.take 400}"
       else
         if (fieldD f "skel_equal" (Json.bool true)) != Json.bool true then
-          return verdict false [] s!"payload at {pos} changes code outside literals/docs in {sOf f "file"}: {(fieldD f "first_diff" Json.null).compress.take 300}"
+          return verdict false (if inlineTwin then ["KnownAnnotationSplitsInlineType"] else []) s!"payload at {pos} changes code outside literals/docs in {sOf f "file"}: {(fieldD f "first_diff" Json.null).compress.take 300}"
     -- format-string positions: a literal used as a format string must print itself
     -- (the literal carries the payload raw or brace-escaped; what it PRINTS must contain the payload)
     let escaped := String.ofList (escapeBraces payload.toList)
